@@ -25,7 +25,12 @@ FILTERS = [".", ".[]", ".a", "1, 2", "empty", "error(\"x\")", "., error(\"late\"
 STDINS = [b"", b"null", b"1 2 3", b"[1,2]\n[3]\n", b"{\"a\":1} {\"a\":[2,3]}", b"\"x\" \"y\"\n", b"1 2 oops 3", b"[1,", b"1\n\n2\n", b"  ", b"# c\n1", b"true false null",
           b"a\nb\r\nc", b"a\0b\0", b"line without newline", b"\n", b"{\"b\":2,\"a\":1}", b"[[1,[2]],{\"x\":[]}]", b"1 [2] {", b"\xff\xfe\n", b"\"\\ud83d\\ude00\"",
           b"1.10 1e1000 -0.0", b"false", b"[null,false]"]
-OPTSETS = [[], ["-c"], ["-r"], ["-j"], ["-n"], ["-s"], ["-R"], ["-Rs"], ["-e"], ["-S"], ["--tab"], ["--indent", "1"], ["-c", "-S"], ["-r", "-c"], ["-n", "-e"],
+OPTSETS = [["--raw-output0", "-j"], ["-j", "--raw-output0"], ["--to", "json", "-j"], ["-j", "--to", "json"], ["-r", "--to", "json"], ["--to", "raw", "-c"],
+           ["--raw-output0", "-r"], ["-r", "--raw-output0"], ["-cj"], ["-jc", "--raw-output0"], ["--from", "json", "-c"], ["--from", "raw", "-c"], ["-R", "--from", "json", "-c"],
+           ["--from", "json", "-R", "-c"], ["--raw-input0", "-R", "-c"], ["-R", "--raw-input0", "-c"], ["--tab", "--indent", "3"], ["--indent", "3", "--tab"], ["--indent", "1", "--indent", "4"],
+           ["--compact-output", "--sort-keys"], ["--null-input", "--exit-status"], ["--slurp", "--raw-input"], ["--join-output"], ["--raw-output", "--compact-output"],
+           ["--indent", "x"], ["--indent"], ["-x"], ["--bogus"], ["--to", "nope"], ["--from"], ["-cX"],
+           [], ["-c"], ["-r"], ["-j"], ["-n"], ["-s"], ["-R"], ["-Rs"], ["-e"], ["-S"], ["--tab"], ["--indent", "1"], ["-c", "-S"], ["-r", "-c"], ["-n", "-e"],
            ["-s", "-c"], ["-R", "-r"], ["--raw-output0"], ["--raw-input0"], ["-ce"], ["-sR", "-j"], ["-nr"], ["-C", "-M", "-c"], ["-M"], ["--indent", "0"],
            ["-e", "-s"], ["--raw-input0", "-s", "-c"]]
 
@@ -68,55 +73,47 @@ def custom(ctx):
         jobs.append(dict(args=args + [f], stdin=s))
         meta.append(dict(filter=f, opts=o, stdin=s, named=named))
     res = cli.run_many(jobs)
-    # model predictions
+    # model predictions: the model parses the command line itself (Cli/Args.v)
     pcases = [["p%d" % i, "parse", m["filter"].encode()] for i, m in enumerate(meta)]
     trees = core.run_cases(core.JAQH, pcases)
     mcases = []
     for i, m in enumerate(meta):
         t = trees.get("p%d" % i)
-        if isinstance(t, list) and t and t[0] == "ok":
-            vars_ = [[k, S(v)] for k, v in m["named"]]
-            mcases.append(["c%d" % i, "cli", t[1], opts_to_model(m["opts"]), vars_, m["stdin"], "400"])
+        tree = t[1] if isinstance(t, list) and t and t[0] == "ok" else "none"
+        vars_ = [[k, S(v)] for k, v in m["named"]]
+        argv = [a.encode() for a in jobs[i]["args"]]
+        mcases.append(["c%d" % i, "cli2", tree, m["filter"].encode(), argv, vars_, m["stdin"], "400"])
     model = jq.run_model_cases(mcases)
-    stats = dict(cli_agree=0, cli_disagree=0, cli_unmodelled=0, compile_error=0)
+    stats = dict(cli_agree=0, cli_disagree=0, cli_unmodelled=0)
     violations, samples = [], []
     distinct = set()
     for i, (m, (rc, out, err)) in enumerate(zip(meta, res)):
-        t = trees.get("p%d" % i)
         what = None
         if "$ARGS" in m["filter"] or "$ENV" in m["filter"] or "input" in m["filter"]:
             stats["cli_unmodelled"] += 1
             continue
-        if not (isinstance(t, list) and t and t[0] == "ok"):
-            # does not parse: must be reported as compile error, status 3, nothing on stdout
-            if rc != 3 or out != b"" or not err:
-                what = "filter that does not parse: status %d, stdout %r" % (rc, out[:80])
+        mo = model.get("c%d" % i)
+        if not (isinstance(mo, list) and mo and mo[0] == "cli") or mo[3] == "out-of-model":
+            if rc == 3 and out == b"":
+                stats["cli_agree"] += 1      # undefined names: compile error, out of the model's scope resolution
             else:
-                stats["compile_error"] += 1
+                stats["cli_unmodelled"] += 1
+            continue
+        mout, mcode = mo[1], int(mo[2])
+        if rc != mcode or out != mout:
+            what = "jaq %s on %r: stdout %r status %d; the model (option parser + main loop) says %r status %d (%s)" % (
+                " ".join(jobs[i]["args"]), m["stdin"][:60], out[:160], rc, mout[:160], mcode, mo[3])
+        elif (mo[3] in ("run-error", "input-error", "write-error", "usage-error", "compile-error")) != bool(err):
+            what = "outcome %s (status %d) but stderr is %s" % (mo[3], rc, "empty" if not err else "not empty: %r" % err[:80])
         else:
-            mo = model.get("c%d" % i)
-            if not (isinstance(mo, list) and mo and mo[0] == "cli") or mo[3] == "out-of-model":
-                # compile errors (undefined names) are out of the model: status must be 3
-                if rc == 3 and out == b"":
-                    stats["compile_error"] += 1
-                else:
-                    stats["cli_unmodelled"] += 1
-                continue
-            mout, mcode = mo[1], int(mo[2])
-            if rc != mcode or out != mout:
-                what = "jaq %s %r on %r: stdout %r status %d; the model of the main loop says %r status %d (%s)" % (
-                    " ".join(m["opts"]), m["filter"], m["stdin"][:60], out[:160], rc, mout[:160], mcode, mo[3])
-            elif (mo[3] in ("run-error", "input-error", "write-error")) != bool(err):
-                what = "outcome %s (status %d) but stderr is %s" % (mo[3], rc, "empty" if not err else "not empty: %r" % err[:80])
-            else:
-                stats["cli_agree"] += 1
-                distinct.add((out, rc))
-                if len(samples) < 4 and out:
-                    samples.append(dict(args=m["opts"] + [m["filter"]], stdin=m["stdin"].decode("latin-1"), stdout=out.decode("latin-1")[:100], status=rc))
+            stats["cli_agree"] += 1
+            distinct.add((out, rc))
+            if len(samples) < 4 and out:
+                samples.append(dict(args=jobs[i]["args"], stdin=m["stdin"].decode("latin-1"), stdout=out.decode("latin-1")[:100], status=rc))
         if what:
             stats["cli_disagree"] += 1
             violations.append(dict(key="cli:" + ("status" if "status" in what else "output"), what=what,
-                                   case=dict(filter=m["filter"], kind="cli", args=m["opts"], stdin=m["stdin"].decode("latin-1")), impl=None))
+                                   case=dict(filter=m["filter"], kind="cli", args=jobs[i]["args"], stdin=m["stdin"].decode("latin-1")), impl=None))
     # in-language oracles for the parts outside the model: input consumption, files, variables
     v2, s2, n2 = oracles(rng, tier)
     violations += v2
